@@ -9,6 +9,7 @@ import Model.Rand
 import Generated.Tables
 import Driver.Util
 import Driver.Opt
+import Driver.State
 
 open PV PV.Driver
 
@@ -201,7 +202,12 @@ def execToks (t : List String) : Option String :=
   | "cell" :: op :: ts => execCell op ts
   | "site" :: op :: ts => execSite op ts
   | "rng" :: op :: ts => execRng op ts
-  | "opt" :: op :: ts => execOpt op ts
+  | "opt" :: op :: ts =>
+    match execOpt op ts with
+    | some r => some r
+    | none => if op == "run" || op == "trace" then execOptCrystal (op == "trace") ts else none
+  | "pair" :: op :: ts => execPair op ts
+  | "state" :: op :: ts => execState op ts
   | "basis" :: "seq" :: ts => execBasisSeq ts
   | "wrap" :: "xy" :: ts => run (do
       let p ← pF; let o ← pF; let x ← pF; let y ← pF
